@@ -18,7 +18,7 @@ func init() {
 		ID:    "C16",
 		Title: "Shard and node placement is deterministic and replica-disjoint",
 		Decides: "the routing functions (ShardID, TraceShardID, Locator.Locate/Find, ApplyLocators, Hash, Entity.Marshal, the selector's Pick) reach no clock, random source, environment, or map iteration through static calls; the shard id is a remainder by the shard-count parameter on a path where zero has exited; " +
-			"every insertion into the selector's node list or lookup table (append or element write) is followed by a sort before the lock is released, both are accessed under the selector mutex, the lookup-table comparator is lex(group↑, shard↑) and the binary-search predicate of Pick is the matching lower bound; node insertion is idempotent (a name already present is not appended again) and table insertion is preceded by removal of the group's entries; the node index is (position+replica) mod the node count, unreachable with zero nodes.",
+			"every insertion into the selector's node list or lookup table (append or element write) is followed by a sort before the lock is released, both are accessed under the selector mutex, the lookup-table comparator is lex(group↑, shard↑) and the binary-search predicate of Pick is the matching lower bound; node insertion is idempotent (a name already present is not appended again) and table insertion is preceded by removal of the group's entries; the node index is (position+replica) mod the node count, unreachable with zero nodes; in the three liaison write loops a request that switches the metadata also resets the spec and the spec-derived tag locators in the same iteration (the shard of a write does not depend on the stream's history), and the measure sharding-key / entity locators are built from the schema's sharding-key / entity tag names respectively.",
 		NotDecided: "distinctness of replicas as arithmetic when fewer nodes than copies, convergence over event orders as a history claim, hash quality, dynamic (interface) callees of the routing functions.",
 		Technique:  "static call-graph unreachability of impure sinks; SSA shape of the modulo; CFG must-follow (sort after insert); must-lockset; comparator truth tables; guarded-insert (membership test dominates append)",
 		Run:        runC16,
@@ -27,6 +27,71 @@ func init() {
 
 func runC16(c *core.Ctx) {
 	r := newR(c)
+	// 0. the locators that pick the entity / sharding-key / trace-id tag positions are a function of the
+	// CURRENT metadata: a request that switches the metadata invalidates them in the same iteration
+	{
+		const lg = "banyand/liaison/grpc"
+		why := "the tag positions used to compute the entity (hence the shard) of the following writes still come from the previous resource's schema and spec: the shard depends on the stream's history, not only on (name, entity values, shard count)"
+		for _, spec := range []struct{ fn, loc string }{
+			{"(*traceService).Write", "specLocator"},
+			{"(*traceService).Write", "spec"},
+			{"(*measureService).Write", "specEntityLocator"},
+			{"(*measureService).Write", "specShardingKeyLocator"},
+			{"(*measureService).Write", "spec"},
+			{"(*streamService).Write", "specLocator"},
+			{"(*streamService).Write", "spec"},
+		} {
+			if f := r.fn("c16.locator-follows-metadata", lg, spec.fn); f != nil {
+				r.pairedLoopUpdate("c16.locator-follows-metadata", f, "metadata", spec.loc, why)
+			}
+		}
+		r.Floor("c16.locator-follows-metadata", 7)
+	}
+	// 0b. the spec locators are built from the schema's entity / sharding-key tag names respectively
+	if f := r.fn("c16.locator-sources", "banyand/liaison/grpc", "(*measureService).buildSpecLocators"); f != nil {
+		rule := "c16.locator-sources"
+		want := []string{").GetEntity", ").GetShardingKey"}
+		role := []string{"entity", "sharding-key"}
+		n := 0
+		for _, ret := range ssax.Find(f, ssax.IsReturn) {
+			res := ret.(*ssa.Return).Results
+			if len(res) != 2 {
+				continue
+			}
+			for i, v := range res {
+				var calls []*ssa.Call
+				seen := map[ssa.Value]bool{}
+				var walk func(v ssa.Value)
+				walk = func(v ssa.Value) {
+					if v == nil || seen[v] {
+						return
+					}
+					seen[v] = true
+					switch x := v.(type) {
+					case *ssa.Phi:
+						for _, e := range x.Edges {
+							walk(e)
+						}
+					case *ssa.Call:
+						if strings.HasSuffix(ssax.CalleeName(x.Common()), ".newSpecLocator") {
+							calls = append(calls, x)
+						}
+					}
+				}
+				walk(v)
+				for _, c := range calls {
+					n++
+					names := c.Call.Args[1]
+					ok := flowsFromCallSuffix(names, want[i], 0) && !flowsFromCallSuffix(names, want[1-i], 0)
+					r.Check(ok, rule, fmt.Sprintf("%s: result %d (%s locator) is built from %s", ssax.FuncName(f), i, role[i], want[i][2:]), r.pos(c),
+						"the "+role[i]+" locator must locate the "+role[i]+" tags of the schema: built from the other list, spec-framed writes hash different tag values than schema-framed writes of the same point, and two coordinators (or two framings) send one series to two shards")
+				}
+			}
+		}
+		r.Floor(rule, 2)
+		_ = n
+	}
+
 	// 1. purity
 	rule := "c16.pure-routing"
 	banned := func(n string) bool {
